@@ -196,6 +196,12 @@ def inputs_snippets(n):
         out.append(_sized(["seen = []", "for k in range(%d):" % n, "    seen.append(input('more: '))",
                            "seen[len(seen)]"], 3, "IndexError", dict(exc=True), "inputs", n,
                           shape="inputs-queue-runs-dry", inputs=["w%d" % i for i in range(n // 2)]))
+        # (d) the instructor queued NON-STRING values (ints, a float, None, a bool): input() hands the student their
+        # text, and the feedback for the failure that follows must still be built (round 5, seed C04_I)
+        mixed = [7, 2.5, None, True, 0, -3]
+        out.append(_sized(["count = 0", "while count < %d:" % n, "    text = input('value? ')", "    count += 1",
+                           "number = int('done')"], 4, "ValueError", dict(exc=True), "inputs", n,
+                          shape="inputs-not-strings-then-fail", inputs=[mixed[i % len(mixed)] for i in range(n)]))
     return out
 
 
